@@ -92,6 +92,8 @@ class SourceTree:
             self.renames = canon.canonicalize(self._asts, ref)
             self.inlined = inline.inline_new_helpers(self._asts, ref)
             self.inlined += inline.inline_new_constants(self._asts, ref)
+            self.inlined += inline.unroll_literal_loops(self._asts, ref)
+            self.inlined += inline.normalize_idioms(self._asts, ref)
 
     def ast(self, relpath):
         self._parse_all()
